@@ -3,6 +3,7 @@
 -/
 import Gmars.Spec.Program
 import Gmars.Proofs.ForUnroll
+import Gmars.Proofs.AsmComposeForBytes
 
 namespace Gmars.Props.C08
 open Gmars Gmars.Spec
@@ -64,10 +65,45 @@ theorem for_unroll_full (p : Prog) (ls : List Line) (k : Nat) (h : FullUnroll p 
     forLoop 14 0 (flat p.render ++ [eofTok]) = .ok (flat ls ++ [eofTok]) :=
   ForPass.for_unroll_full p ls k h hk
 
+open AsmComposeFor AsmLine in
+/-- `for_unroll_meaning` — the property at the level of whole assemblies: the token stream of a
+    FOR program (label-free blocks, sequential and nested, counts literal or an enclosing
+    counter) assembles to the MEANING of its manual unrolling as the reference computes it
+    (`Spec.meaning` = `Spec.unroll` then `meaningFlat`), when at most 12 expansions are needed -/
+theorem for_unroll_meaning (cfg : Config) (sc : Spec.Cfg) (fp : FProg)
+    (U : List FInstr) (k : Nat) (hu : FUnroll fp U k) (hk : k ≤ 12) (hok : fp.OK)
+    (hfuel : U.length + k < 100000)
+    (hv : cfg.validate = true) (h63 : cfg.coreSize.toNat < 2 ^ 63) (hr : CfgRel cfg sc)
+    (hclosed : fp.Closed [])
+    (hw : ProgWF sc.M [] 0 (U.map FInstr.toL)) :
+    assembleTokens cfg (ForPass.flat fp.toProg.render ++ [ForPass.eofTok]) =
+      match Spec.meaning sc fp.toItems with
+      | some m => .ok (toWD {} m)
+      | none => .err :=
+  AsmComposeFor.assemble_meaning_for_tokens cfg sc fp U k hu hk hok hfuel hv h63 hr hclosed hw
+
+open AsmComposeFor in
+/-- the reference's own unrolling of such a program is `U`, with exactly `k` expansions -/
+theorem reference_unroll (fp : FProg) (U : List FInstr) (k : Nat) (hu : FUnroll fp U k)
+    (hfuel : U.length + k < 100000) :
+    Spec.unroll fp.toItems = some (U.map FInstr.toItem) :=
+  AsmComposeFor.spec_unroll hu hfuel
+
+open AsmComposeFor Render in
+/-- with 13 or more expansions the assembler gives up, from bytes (finding F12) -/
+theorem too_deep_from_bytes (cfg : Config) (fp : FProg) (U : List FInstr) (k : Nat)
+    (hu : FUnroll fp U k) (hk : 13 ≤ k) (hok : fp.OK) (hlex : fp.LexOK)
+    (ls : List SrcLine) (hls : ∀ l ∈ ls, l.ok (some '\n') = true) (hsame : SameLines ls fp.srcLines)
+    (src : List UInt8) (hsrc : decodeRunes src = renderLines ls) :
+    assemble cfg src = .err :=
+  AsmComposeFor.assemble_for_too_deep_bytes cfg fp U k hu hk hok hlex ls hls hsame src hsrc
+
 /-
   The full statement of the property (any number of expansions, "up to 40") is false of the
-  code: `thirteenth_pass_refused` is the proof, the `for` domain shows it on the implementation
-  (KNOWN_FINDINGS F12); block labels referenced from outside the block are F13.
+  code: `thirteenth_pass_refused` / `too_deep_from_bytes` are the proof, the `for` domain shows
+  it on the implementation (KNOWN_FINDINGS F12); block labels referenced from outside the block
+  are F13. Shadowed counters (`i for 2 / i for 2 / dat i / rof / rof`) are rejected by the
+  assembler while the reference unrolls them; they are outside the property's quantifier.
 -/
 
 /-- a zero-count block contributes nothing; a block with count n contributes n copies of its
